@@ -700,14 +700,16 @@ static json_t *project_mat(const jwk_item_t *it, json_t *kd)
 		}
 		json_object_set_new(m, "octlen", json_integer((json_int_t)ol));
 		pub = prv = octok;
-	} else if (pem && kd && strcmp(kty, "oct") && strcmp(jstr(kd, "base", "~"), "rawobj")) {
+	} else if (pem) {
 		BIO *b = BIO_new_mem_buf(pem, -1);
-		EVP_PKEY *k = NULL, *ref = pool_get(jstr(kd, "base", "~"));
+		int haveref = kd && strcmp(kty, "oct") && strcmp(kty, "~") && strcmp(jstr(kd, "base", "~"), "rawobj") && strcmp(jstr(kd, "base", "~"), "?");
+		EVP_PKEY *k = NULL, *ref = haveref ? pool_get(jstr(kd, "base", "~")) : NULL;
 		if (strstr(pem, "PRIVATE KEY")) { k = PEM_read_bio_PrivateKey(b, NULL, NULL, NULL); pempriv = 1; }
 		else k = PEM_read_bio_PUBKEY(b, NULL, NULL, NULL);
 		BIO_free(b);
+		if (k) pemok = 1;
+		if (k && !ref) { EVP_PKEY_free(k); k = NULL; }
 		if (k) {
-			pemok = 1;
 			/* EVP_PKEY_eq compares public components (and parameters) */
 			if (EVP_PKEY_get_base_id(k) == EVP_PKEY_get_base_id(ref) ||
 			    (EVP_PKEY_get_base_id(k) == EVP_PKEY_RSA_PSS && EVP_PKEY_get_base_id(ref) == EVP_PKEY_RSA)) {
